@@ -10,7 +10,7 @@ import numpy as np
 
 ID = "C15"
 SHARDS = {"quick": 8, "thorough": 16}
-BUDGET = {"quick": 45, "thorough": 420}
+BUDGET = {"quick": 300, "thorough": 1800}
 RULE = ("polygons with 3..12 vertices: star-shaped, random self-intersecting, "
         "integer-lattice polygons rich in horizontal / vertical / collinear edges "
         "and repeated vertices; query points random and on half-integer lattices "
